@@ -43,7 +43,8 @@ def generate(ctx):
             txt = py_render(t, bool(fmt)); L = len(txt) if txt is not None else 10
             for pre in (pres if pres is not None else [rng.choice([0, 1, L - 1, L, L + 1, 255, 256, 257])]):
                 for al in allocs:
-                    cases.append(Case('print B %d %d %s %d %s' % (fmt, max(pre, 0), al, failk, line),
+                    cfmt = fmt if not fmt or rng.random() < 0.7 else rng.choice([4, 255, 256, -1, 2])    # cJSON_bool is an int: every non-zero value means 'formatted'
+                    cases.append(Case('print B %d %d %s %d %s' % (cfmt, max(pre, 0), al, failk, line),
                                       {'tags': [tag, 'buffered', al, 'pre=%s' % ('len%+d' % (pre - L) if abs(pre - L) <= 1 else pre)] + (['failk'] if failk else []),
                                        'tree': t, 'fmt': fmt, 'failk': failk}))
     for i in range(400 if quick else 5000):
@@ -61,6 +62,10 @@ def generate(ctx):
     for t in last_token_trees()[:: (5 if quick else 1)]: rt(t, 'last-token', fmts=(rng.choice([0, 1]),))
     for depth, kind in ((10, 0), (30, T_ARRAY)) + (() if quick else ((200, T_ARRAY), (60, T_OBJECT), (999, T_ARRAY), (1001, T_ARRAY))):
         rt(nested(depth, kind), 'nested', fmts=(0,) if depth > 100 else (0, 1))
+    # shallow but WIDE trees: more empty / small containers than the parser's nesting limit (its depth counter must come back after each)
+    if ctx.get('seed_index', 0) == 0:
+        for unit in (lambda: PN(T_ARRAY), lambda: PN(T_OBJECT), lambda: PN(T_ARRAY, ch=[PN(T_NUMBER, vi=1, vd=1.0)])):
+            rt(PN(T_ARRAY, ch=[unit() for _ in range(1003)]), 'wide', fmts=(0,))
     # independence of prebuffer and allocator: every boundary on fixed trees
     fixed = [PN(T_ARRAY, ch=[PN(T_STRING, vs=b'a"\x01\n\xff'), PN(T_NUMBER, vi=1, vd=1.5), PN(T_OBJECT, ch=[PN(T_ARRAY, key=b'k'), PN(T_OBJECT, key=b'')])]),
              PN(T_OBJECT, ch=[PN(T_STRING, vs=b'x' * 250, key=b'long'), PN(T_NUMBER, vi=0, vd=1e-5, key=b'n')]),
